@@ -3,6 +3,7 @@
 package gorp
 
 import (
+	"github.com/synnaxlabs/x/encoding"
 	"bytes"
 	"context"
 	"io"
@@ -114,4 +115,9 @@ func VerifOpenDB(store *VerifKV, codec VerifCodec) *DB {
 
 func VerifOpenTable[K Key, E Entry[K]](db *DB) *Table[K, E] {
 	return &Table[K, E]{db: db, keyPrefix: newKeyPrefix[E]()}
+}
+
+// VerifOpenDBWith is VerifOpenDB for any codec (e.g. the real orc codec).
+func VerifOpenDBWith(store *VerifKV, codec encoding.Codec) *DB {
+	return &DB{DB: store, options: options{Codec: codec}}
 }
